@@ -1422,3 +1422,16 @@ def s_seed_of(m, args, kw, node):
     if isinstance(o, ExtObj) and o.kind == "rng":
         return o.data.get("seed")
     raise Unsupported("seed_of(%r)" % (o,), node)
+
+
+@specfn("outputs")
+def s_outputs(m, args, kw, node):
+    """what the function handed to serialisation / output functions, in order: [(function, argument, text)]"""
+    return SList([tuple(e) for e in m.output_log])
+
+
+@specfn("size_of_text")
+def s_size_of_text(m, args, kw, node):
+    x = m.force(args[0], node)
+    f = z3.Function("uf_sizeof", z3.IntSort(), z3.IntSort())
+    return Sym(f(m.z(x)), "int")
